@@ -189,7 +189,7 @@ def defects(rng, rows, model):
         yield "delimiter-equals-quote", base[:1] + [["D", "Item delimiter", "'"], ["D", "Quote character", "'"]] + base[1:], None, None
     # --- field rows (at every field row)
     for n, i in enumerate(f_index):
-        for name, bad in (("empty", ""), ("blank", "  "), ("digit-first", "1abc"), ("underscore-first", "_abc"), ("non-ascii", "größe"),
+        for name, bad in (("empty", ""), ("blank", "  "), ("digit-first", "1abc"), ("underscore-first", "_abc"), ("non-ascii", "größe"), ("non-ascii-first", "ärger"), ("non-ascii-first-greek", "Ωmega"), ("non-ascii-only", "ß"), ("non-ascii-last", "cafe\u0301"), ("fullwidth-digit", "a１"),
                           ("with-blank", "first name"), ("with-hyphen", "first-name"), ("keyword", "class"), ("keyword2", "None"), ("with-dot", "a.b")):
             yield "field-name:%s" % name, variant(i, setcell(1, bad)), i + 1, None
         if n > 0:
